@@ -1,4 +1,450 @@
-/-! Model/C18 — executable model (core Lean only; imports only NibabelModel.Basic.* / other Model files). -/
+import NibabelModel.Basic.PySlice
+/-!
+  Model/C18 — executable model of the CIFTI-2 axis logic of `nibabel/cifti2/cifti2_axes.py`
+  (core Lean only).  What is modelled:
+
+  * `SeriesAxis.__getitem__/get_element/__add__`                       (cifti2_axes.py:1444-1510)
+    and the ORIGINAL (pre-`fix:`) slice arithmetic as `seriesGetSliceOrig`;
+  * the list-backed axes (`ScalarAxis`, `LabelAxis`, `ParcelsAxis`, `BrainModelAxis`) as records of
+    PARALLEL lists, each indexed independently by NumPy (`self.name[item]`, `self.meta[item]` …),
+    their constructors' checks, `get_element`, `__getitem__`, `__add__`
+                                                   (cifti2_axes.py:253-336,668-741,780-800,1003-1071,
+                                                    1085-1198,1209-1345);
+  * `BrainModelAxis.iter_structures / to_mapping / from_index_mapping`  (cifti2_axes.py:400-495).
+
+  External (parameters / identified with small integers, see ASSUMPTIONS in harness/props/c18.py):
+  names, metadata dicts, label tables, voxel sets and vertex dicts of parcels, affines are opaque ids
+  (`Nat`); `np.allclose` on affines is id equality; `to_cifti_brain_structure_name` is the identity
+  on the CIFTI structure names used; the XML layer is not modelled.
+-/
 namespace Nb.C18
+open Nb
+
+inductive Err
+  | indexError | valueError
+  deriving Repr, DecidableEq, Inhabited
+
+/-! ## NumPy 1-D indexing of one array (specification: the result is a gather at `positions`) -/
+
+/-- the index objects of the property's quantifier -/
+inductive Index
+  | int (i : Int)
+  | slice (s : PySlice)
+  | arr (l : List Int)
+  | mask (m : List Bool)
+  deriving Repr, Inhabited
+
+/-- `np.flatnonzero(mask) + k` -/
+def maskPosFrom (k : Nat) : List Bool → List Nat
+  | [] => []
+  | b :: bs => if b then k :: maskPosFrom (k + 1) bs else maskPosFrom (k + 1) bs
+
+/-- integer index array: every entry is wrapped like a Python int index; one bad entry = IndexError -/
+def arrPos (n : Nat) : List Int → Except Err (List Nat)
+  | [] => .ok []
+  | i :: is =>
+    match pyIntIndex n i, arrPos n is with
+    | some k, .ok r => .ok (k :: r)
+    | _, _ => .error .indexError
+
+/-- positions selected by a non-integer 1-D NumPy index on an axis of length `n`
+    (`slice` with step 0: ValueError; boolean mask of another length: IndexError — except that NumPy
+    accepts a size-0 boolean index on an axis of any length and selects nothing). -/
+def positions (n : Nat) : Index → Except Err (List Nat)
+  | .int _ => .error .indexError
+  | .slice s => if s.stepVal = 0 then .error .valueError else .ok (s.sel n)
+  | .arr l => arrPos n l
+  | .mask m => if m.length = n ∨ m.isEmpty then .ok (maskPosFrom 0 m) else .error .indexError
+
+def gather {α} (l : List α) (ps : List Nat) : List α := ps.filterMap (fun i => l[i]?)
+
+/-- `arr[item]` for a 1-D NumPy array `arr` and a non-integer `item` -/
+def npTake {α} (l : List α) (idx : Index) : Except Err (List α) :=
+  (positions l.length idx).map (gather l)
+
+/-- `arr[i]` for a Python int `i` -/
+def npGet {α} (l : List α) (i : Int) : Except Err α :=
+  match pyIntIndex l.length i with
+  | some k => match l[k]? with
+    | some x => .ok x
+    | none => .error .indexError
+  | none => .error .indexError
+
+/-! ## SeriesAxis (cifti2_axes.py:1350-1510) -/
+
+/-- `unit` is an index into ('SECOND','HERTZ','METER','RADIAN') -/
+structure Series where
+  start : Int
+  step : Int
+  size : Nat
+  unit : Nat
+  deriving Repr, DecidableEq, Inhabited
+
+/-- `SeriesAxis.time` = `np.arange(size) * step + start` -/
+def Series.elements (a : Series) : List Int := rangeInts a.start a.step a.size
+
+/-- `SeriesAxis.get_element` (1496-1510) -/
+def seriesGetElement (a : Series) (i : Int) : Except Err Int :=
+  let idx := if i < 0 then (a.size : Int) + i else i
+  if idx ≥ a.size ∨ idx < 0 then .error .indexError else .ok (a.start + a.step * idx)
+
+/-- `SeriesAxis.__getitem__` with a slice, AFTER the fix (1476-1482): `item.indices(self.size)`,
+    `len(range(...))`.  `slice.indices` raises ValueError for step 0. -/
+def seriesGetSlice (a : Series) (s : PySlice) : Except Err Series :=
+  if s.stepVal = 0 then .error .valueError
+  else
+    let (i0, i1, st) := s.indices a.size
+    .ok ⟨i0 * a.step + a.start, a.step * st, rangeLen i0 i1 st, a.unit⟩
+
+/-- `SeriesAxis.__getitem__`: slice | int | anything else -> IndexError (1476-1490) -/
+inductive SeriesItem
+  | elem (t : Int)
+  | axis (a : Series)
+  deriving Repr, DecidableEq
+
+def seriesGetitem (a : Series) : Index → Except Err SeriesItem
+  | .slice s => (seriesGetSlice a s).map .axis
+  | .int i => (seriesGetElement a i).map .elem
+  | _ => .error .indexError
+
+/-- the pinned (pre-fix) slice arithmetic of `SeriesAxis.__getitem__` (`//` is floor division) -/
+def seriesGetSliceOrig (a : Series) (s : PySlice) : Series :=
+  let step := s.step.getD 1
+  let n : Int := a.size
+  let i0 := match s.start with
+    | none => if step < 0 then n - 1 else 0
+    | some v => if v ≥ 0 then v else n + v
+  let i1 := match s.stop with
+    | none => if step < 0 then -1 else n
+    | some v => if v ≥ 0 then v else n + v
+  let i0 := if i0 > n ∧ step < 0 then n - 1 else i0
+  let i1 := if i1 > n then n else i1
+  let ne := Int.fdiv (i1 - i0) step
+  let ne := if ne < 0 then 0 else ne
+  ⟨i0 * a.step + a.start, a.step * step, ne.toNat, a.unit⟩
+
+/-- `SeriesAxis.__add__` (1449-1474): the start of `other` is ignored -/
+def seriesAdd (a b : Series) : Except Err Series :=
+  if b.step ≠ a.step then .error .valueError
+  else if b.unit ≠ a.unit then .error .valueError
+  else .ok ⟨a.start, a.step, a.size + b.size, a.unit⟩
+
+/-! ## ScalarAxis (1085-1198) and LabelAxis (1200-1345): parallel lists of opaque ids -/
+
+def zip3 {α β γ} (a : List α) (b : List β) (c : List γ) : List (α × β × γ) := a.zip (b.zip c)
+
+structure Scalar where
+  name : List Nat
+  mta : List Nat
+  deriving Repr, DecidableEq, Inhabited
+
+/-- constructor shape check (1101-1112) -/
+def scalarMk (name mta : List Nat) : Except Err Scalar :=
+  if mta.length = name.length then .ok ⟨name, mta⟩ else .error .valueError
+
+def Scalar.size (a : Scalar) : Nat := a.name.length
+/-- `[a.get_element(i) for i in range(len(a))]` -/
+def Scalar.elements (a : Scalar) : List (Nat × Nat) := a.name.zip a.mta
+
+/-- `ScalarAxis.get_element` (1184-1198): `self.name[index], self.meta[index]` -/
+def scalarGetElement (a : Scalar) (i : Int) : Except Err (Nat × Nat) := do
+  let n ← npGet a.name i
+  let m ← npGet a.mta i
+  pure (n, m)
+
+/-- `ScalarAxis.__getitem__` for non-int (1179-1182) -/
+def scalarGetitem (a : Scalar) (idx : Index) : Except Err Scalar := do
+  let n ← npTake a.name idx
+  let m ← npTake a.mta idx
+  scalarMk n m
+
+/-- `ScalarAxis.__add__` (1160-1177) -/
+def scalarAdd (a b : Scalar) : Except Err Scalar :=
+  scalarMk (a.name ++ b.name) (a.mta ++ b.mta)
+
+structure Label where
+  name : List Nat
+  label : List Nat
+  mta : List Nat
+  deriving Repr, DecidableEq, Inhabited
+
+def labelMk (name label mta : List Nat) : Except Err Label :=
+  if mta.length = name.length ∧ label.length = name.length then .ok ⟨name, label, mta⟩
+  else .error .valueError
+
+def Label.size (a : Label) : Nat := a.name.length
+def Label.elements (a : Label) : List (Nat × Nat × Nat) := zip3 a.name a.label a.mta
+
+def labelGetElement (a : Label) (i : Int) : Except Err (Nat × Nat × Nat) := do
+  let n ← npGet a.name i
+  let l ← npGet a.label i
+  let m ← npGet a.mta i
+  pure (n, l, m)
+
+def labelGetitem (a : Label) (idx : Index) : Except Err Label := do
+  let n ← npTake a.name idx
+  let l ← npTake a.label idx
+  let m ← npTake a.mta idx
+  labelMk n l m
+
+def labelAdd (a b : Label) : Except Err Label :=
+  labelMk (a.name ++ b.name) (a.label ++ b.label) (a.mta ++ b.mta)
+
+/-! ## the `nvertices` dict (insertion ordered, unique keys) -/
+
+abbrev Dict := List (Nat × Nat)
+
+def dictHas (d : Dict) (k : Nat) : Bool := d.any (fun p => p.1 == k)
+def dictGet (d : Dict) (k : Nat) : Option Nat := (d.find? (fun p => p.1 == k)).map (·.2)
+/-- `d[k] = v` -/
+def dictSet (d : Dict) (k v : Nat) : Dict :=
+  if dictHas d k then d.map (fun p => if p.1 == k then (k, v) else p) else d ++ [(k, v)]
+
+/-- the merge loop of `BrainModelAxis.__add__` / `ParcelsAxis.__add__` (703-711, 1038-1046) -/
+def mergeNv (d : Dict) : Dict → Except Err Dict
+  | [] => .ok d
+  | (k, v) :: rest =>
+    match dictGet d k with
+    | some v' => if v' ≠ v then .error .valueError else mergeNv (dictSet d k v) rest
+    | none => mergeNv (dictSet d k v) rest
+
+abbrev Shape := Nat × Nat × Nat
+
+/-- the affine/volume-shape reconciliation at the top of both `__add__` (690-701, 1025-1037) -/
+def mergeVolume (aff1 : Option Nat) (shp1 : Option Shape) (aff2 : Option Nat) (shp2 : Option Shape) :
+    Except Err (Option Nat × Option Shape) :=
+  match aff1 with
+  | none => .ok (aff2, shp2)
+  | some a1 =>
+    match aff2 with
+    | some a2 => if a2 ≠ a1 ∨ shp2 ≠ shp1 then .error .valueError else .ok (aff1, shp1)
+    | none => .ok (aff1, shp1)
+
+/-! ## ParcelsAxis (743-1082) -/
+
+structure Parcels where
+  name : List Nat
+  voxels : List Nat
+  vertices : List Nat
+  affine : Option Nat
+  shape : Option Shape
+  nvertices : Dict
+  deriving Repr, DecidableEq, Inhabited
+
+/-- constructor (780-800): only shape checks; the affine is kept only together with … nothing:
+    `affine`/`volume_shape` are stored as given. -/
+def parcelsMk (name voxels vertices : List Nat) (aff : Option Nat) (shp : Option Shape) (nv : Dict) :
+    Except Err Parcels :=
+  if voxels.length = name.length ∧ vertices.length = name.length then
+    .ok ⟨name, voxels, vertices, aff, shp, nv⟩
+  else .error .valueError
+
+def Parcels.size (a : Parcels) : Nat := a.name.length
+def Parcels.elements (a : Parcels) : List (Nat × Nat × Nat) := zip3 a.name a.voxels a.vertices
+
+def parcelsGetElement (a : Parcels) (i : Int) : Except Err (Nat × Nat × Nat) := do
+  let n ← npGet a.name i
+  let v ← npGet a.voxels i
+  let w ← npGet a.vertices i
+  pure (n, v, w)
+
+def parcelsGetitem (a : Parcels) (idx : Index) : Except Err Parcels := do
+  let n ← npTake a.name idx
+  let v ← npTake a.voxels idx
+  let w ← npTake a.vertices idx
+  parcelsMk n v w a.affine a.shape a.nvertices
+
+def parcelsAdd (a b : Parcels) : Except Err Parcels := do
+  let (aff, shp) ← mergeVolume a.affine a.shape b.affine b.shape
+  let nv ← mergeNv a.nvertices b.nvertices
+  parcelsMk (a.name ++ b.name) (a.voxels ++ b.voxels) (a.vertices ++ b.vertices) aff shp nv
+
+/-- `ParcelsAxis.__getitem__` with a string (1057-1063): exactly one parcel of that name -/
+def parcelsByName (a : Parcels) (nm : Nat) : Except Err (Nat × Nat) :=
+  match (zip3 a.name a.voxels a.vertices).filter (fun e => e.1 == nm) with
+  | [e] => .ok e.2
+  | _ => .error .indexError
+
+/-! ## BrainModelAxis (238-741) -/
+
+abbrev Vox := Int × Int × Int
+
+structure BM where
+  name : List Nat            -- structure ids
+  voxel : List Vox
+  vertex : List Int
+  affine : Option Nat
+  shape : Option Shape
+  nvertices : Dict
+  deriving Repr, DecidableEq, Inhabited
+
+def voxNeg (v : Vox) : Bool := v.1 < 0 || v.2.1 < 0 || v.2.2 < 0
+
+/-- the constructor (253-336) with `name` an array, `voxel` and `vertex` both given.
+    * `nvertices` loses the keys that do not occur in `name` (300-302);
+    * `surface_mask` is computed with `np.vectorize`, which raises ValueError on a size-0 input;
+    * all-surface axes drop affine and volume shape, others need both (305-315);
+    * surface elements need `vertex >= 0`, the others `voxel >= 0` (317-320);
+    * shape checks (322-336). -/
+def pruneNv (name : List Nat) (nv : Dict) : Dict := nv.filter (fun p => name.contains p.1)
+/-- `surface_mask`: one flag per element -/
+def surfFlags (nv : Dict) (name : List Nat) : List Bool := name.map (dictHas nv)
+/-- `np.any(self.vertex[surface_mask] < 0)` -/
+def vertBad (surf : List Bool) (vertex : List Int) : Bool :=
+  (surf.zip vertex).any (fun p => p.1 && decide (p.2 < 0))
+/-- `np.any(self.voxel[~surface_mask] < 0)` -/
+def voxBad (surf : List Bool) (voxel : List Vox) : Bool :=
+  (surf.zip voxel).any (fun p => !p.1 && voxNeg p.2)
+
+def bmMk (name : List Nat) (voxel : List Vox) (vertex : List Int) (aff : Option Nat)
+    (shp : Option Shape) (nv : Dict) : Except Err BM :=
+  let nv' := pruneNv name nv
+  if name.isEmpty then .error .valueError
+  else if voxel.length ≠ name.length ∨ vertex.length ≠ name.length then .error .valueError
+  else
+    let surf := surfFlags nv' name
+    let allSurf := surf.all id
+    if !allSurf && (aff.isNone || shp.isNone) then .error .valueError
+    else if vertBad surf vertex then .error .valueError
+    else if voxBad surf voxel then .error .valueError
+    else .ok ⟨name, voxel, vertex, if allSurf then none else aff, if allSurf then none else shp, nv'⟩
+
+def BM.size (a : BM) : Nat := a.name.length
+
+/-- element description of `BrainModelAxis.get_element` (727-741) -/
+inductive BMElem
+  | surf (name : Nat) (vertex : Int)
+  | vox (name : Nat) (v : Vox)
+  deriving Repr, DecidableEq, Inhabited
+
+def bmElem (nv : Dict) (e : Nat × Vox × Int) : BMElem :=
+  if dictHas nv e.1 then .surf e.1 e.2.2 else .vox e.1 e.2.1
+
+def BM.elements (a : BM) : List BMElem := (zip3 a.name a.voxel a.vertex).map (bmElem a.nvertices)
+
+def bmGetElement (a : BM) (i : Int) : Except Err BMElem := do
+  let n ← npGet a.name i
+  if dictHas a.nvertices n then
+    let v ← npGet a.vertex i
+    pure (.surf n v)
+  else
+    let v ← npGet a.voxel i
+    pure (.vox n v)
+
+/-- `BrainModelAxis.__getitem__` for non-int (712-725) -/
+def bmGetitem (a : BM) (idx : Index) : Except Err BM := do
+  let n ← npTake a.name idx
+  let v ← npTake a.voxel idx
+  let w ← npTake a.vertex idx
+  bmMk n v w a.affine a.shape a.nvertices
+
+/-- `BrainModelAxis.__add__` (676-720) -/
+def bmAdd (a b : BM) : Except Err BM := do
+  let (aff, shp) ← mergeVolume a.affine a.shape b.affine b.shape
+  let nv ← mergeNv a.nvertices b.nvertices
+  bmMk (a.name ++ b.name) (a.voxel ++ b.voxel) (a.vertex ++ b.vertex) aff shp nv
+
+/-! ### iter_structures / to_mapping / from_index_mapping -/
+
+structure Run where
+  name : Nat
+  start : Nat
+  stop : Nat
+  deriving Repr, DecidableEq, Inhabited
+
+/-- the loop of `iter_structures` (449-457): state (`start_name`, `idx_start`), `cur` = `idx_current`;
+    the final `slice(idx_start, None)` is recorded with `stop = len`. -/
+def runsGo (startName : Nat) (startIdx cur : Nat) : List Nat → List Run
+  | [] => [⟨startName, startIdx, cur⟩]
+  | x :: xs =>
+    if startName ≠ x then ⟨startName, startIdx, cur⟩ :: runsGo x cur (cur + 1) xs
+    else runsGo startName startIdx (cur + 1) xs
+
+/-- `self.name[0]` raises IndexError on an empty axis -/
+def runs : List Nat → Except Err (List Run)
+  | [] => .error .indexError
+  | x :: xs => .ok (runsGo x 0 0 (x :: xs))
+
+def sliceOf {α} (l : List α) (start stop : Nat) : List α := (l.drop start).take (stop - start)
+
+/-- `self[idx_start:idx_current]` (a basic slice with 0 ≤ start ≤ stop ≤ len) -/
+def bmSub (a : BM) (start stop : Nat) : Except Err BM :=
+  bmMk (sliceOf a.name start stop) (sliceOf a.voxel start stop) (sliceOf a.vertex start stop)
+    a.affine a.shape a.nvertices
+
+/-- one `Cifti2BrainModel` as built by `to_mapping` (417-441) -/
+structure BMRec where
+  offset : Nat
+  count : Nat
+  surf : Bool
+  name : Nat
+  nvert : Option Nat
+  vox : List Vox
+  vert : List Int
+  deriving Repr, DecidableEq, Inhabited
+
+structure BMMap where
+  recs : List BMRec
+  /-- `mim.volume` = (volume_shape, affine), set by the first non-surface structure -/
+  volume : Option (Option Shape × Option Nat)
+  deriving Repr, DecidableEq, Inhabited
+
+def recsOf (a : BM) : List Run → Except Err (List BMRec)
+  | [] => .ok []
+  | r :: rs => do
+    let sub ← bmSub a r.start r.stop
+    let surf := dictHas a.nvertices r.name
+    let rec_ : BMRec :=
+      { offset := r.start, count := sub.size, surf := surf, name := r.name,
+        nvert := if surf then dictGet a.nvertices r.name else none,
+        vox := if surf then [] else sub.voxel,
+        vert := if surf then sub.vertex else [] }
+    let rest ← recsOf a rs
+    pure (rec_ :: rest)
+
+/-- `BrainModelAxis.to_mapping` (400-441) -/
+def bmToMapping (a : BM) : Except Err BMMap := do
+  let rs ← runs a.name
+  let recs ← recsOf a rs
+  pure ⟨recs, if recs.any (fun r => !r.surf) then some (a.shape, a.affine) else none⟩
+
+/-- NumPy `buf[off:off+count] = vals` with `len(vals) == count` (no broadcasting modelled) -/
+def setSlice {α} (buf : List α) (off count : Nat) (vals : List α) : Except Err (List α) :=
+  if vals.length = count ∧ off + count ≤ buf.length then
+    .ok (buf.take off ++ vals ++ buf.drop (off + count))
+  else .error .valueError
+
+structure FromState where
+  voxel : List Vox
+  vertex : List Int
+  name : List Nat
+  nv : Dict
+  deriving Repr, DecidableEq, Inhabited
+
+/-- the loop body of `from_index_mapping` (381-397) -/
+def fromStep (st : FromState) (r : BMRec) : Except Err FromState :=
+  let name := st.name ++ List.replicate r.count r.name
+  if r.surf then do
+    let vertex ← setSlice st.vertex r.offset r.count r.vert
+    pure { st with vertex := vertex, name := name, nv := dictSet st.nv r.name (r.nvert.getD 0) }
+  else do
+    let voxel ← setSlice st.voxel r.offset r.count r.vox
+    pure { st with voxel := voxel, name := name }
+
+def fromLoop (st : FromState) : List BMRec → Except Err FromState
+  | [] => .ok st
+  | r :: rs => do
+    let st' ← fromStep st r
+    fromLoop st' rs
+
+/-- `BrainModelAxis.from_index_mapping` (367-398) -/
+def bmFromMapping (m : BMMap) : Except Err BM := do
+  let nbm := (m.recs.map (·.count)).sum
+  let st0 : FromState := ⟨List.replicate nbm (-1, -1, -1), List.replicate nbm (-1), [], []⟩
+  let st ← fromLoop st0 m.recs
+  let hasVox := m.recs.any (fun r => !r.surf)
+  let (shp, aff) : Option Shape × Option Nat :=
+    if hasVox then (match m.volume with | some (s, a) => (s, a) | none => (none, none)) else (none, none)
+  bmMk st.name st.voxel st.vertex aff shp st.nv
 
 end Nb.C18
